@@ -32,22 +32,22 @@ Lemma sf_fields E s s' : st_fs s' = st_fs s -> st_outs s' = st_outs s -> st_ins 
   same_files E s s'.
 Proof. intros H1 H2 H3 H4. unfold same_files. rewrite H4. auto. Qed.
 
-Lemma sf_touch E s n : same_files E s (touch E s n).
+Lemma sf_touch E s : same_files E s (touch E s).
 Proof.
-  unfold touch. destruct (negb (is_osfile (e_mode E)) && any_cmd (st_outs s)); cbn [st_outs set_overlap];
+  unfold touch. destruct (negb (is_osfile (e_mode E)) && any_active (st_outs s)); cbn [st_outs set_overlap];
   match goal with |- context [if ?c then set_unmod _ else _] => destruct c end; apply sf_fields; auto.
 Qed.
 
 Lemma sf_flush_stdout E s : same_files E s (fst (flush_stdout E s)).
 Proof.
   unfold flush_stdout. destruct (e_mode E); cbn [fst]; try apply sf_refl.
-  apply (sf_trans _ _ (touch E s 0)); [apply sf_touch|]. destruct (bw_flush _ _) as [[w k] ok]. cbn [fst]. apply sf_fields; auto.
+  apply (sf_trans _ _ (touch E s)); [apply sf_touch|]. destruct (bw_flush _ _) as [[w k] ok]. cbn [fst]. apply sf_fields; auto.
 Qed.
 
 Lemma sf_write_stdout E s ps : same_files E s (fst (write_stdout E s ps)).
 Proof.
-  unfold write_stdout. apply (sf_trans _ _ (touch E s (length (concat ps)))); [apply sf_touch|].
-  set (s1 := touch E s (length (concat ps))).
+  unfold write_stdout. apply (sf_trans _ _ (touch E s)); [apply sf_touch|].
+  set (s1 := touch E s).
   assert (H : same_files E s1 (add_log s1 (EvWrite WStdout (concat ps)))).
   { unfold same_files. cbn. auto. }
   eapply sf_trans; [exact H|].
@@ -65,14 +65,11 @@ Proof.
   destruct (e_mode E); cbv beta iota.
   - destruct (sink_write _ _) as [[? ?] ?]. cbn [fst]. apply sf_fields; auto.
   - destruct cg; cbn [fst]; [apply sf_refl|]. destruct (sink_write _ _) as [[? ?] ?]. cbn [fst]. apply sf_fields; auto.
-  - destruct cg; cbn [fst]; [apply sf_fields; auto|]. match goal with |- context [if ?c then set_unmod ?x else ?x] => destruct c end; destruct (bw_read_from _ _ _ _) as [[? ?] ?]; cbn [fst]; apply sf_fields; auto.
+  - destruct cg; cbn [fst]; [apply sf_fields; auto|]. match goal with |- context [if ?c then set_unmod ?x else ?x] => destruct c end; destruct (bw_write _ _ _ _) as [[? ?] ?]; cbn [fst]; apply sf_fields; auto.
 Qed.
 
 Lemma sf_child_eof E s cg : same_files E s (fst (child_eof E s cg)).
-Proof.
-  unfold child_eof. destruct (e_mode E); cbv beta iota; cbn [fst]; try apply sf_refl.
-  destruct cg; cbn [fst]; [apply sf_refl|]. destruct (bw_read_from _ _ _ _) as [[? ?] ?]. cbn [fst]. apply sf_fields; auto.
-Qed.
+Proof. apply sf_refl. Qed.
 
 Lemma sf_if_print_errorf E (b : bool) s : same_files E s (if b then print_errorf E s else s).
 Proof. destruct b; [apply sf_flush_stdout|apply sf_refl]. Qed.
@@ -633,7 +630,7 @@ Proof.
       pose proof (finv_lookup_ok _ _ _ Hi El) as Hok.
       destruct (close_ostream_files _ _ _ _ _ _ Ec Hok) as (A1 & A2 & A3).
       intros H; injection H as <- <-.
-      apply finv_add_obs. apply (finv_same _ _ (sf_if_unmod E _ _)). apply finv_if_print_errorf. apply finv_add_log; [exact I|].
+      apply finv_add_obs. apply finv_if_print_errorf. apply finv_add_log; [exact I|].
       apply (finv_remove s n os s1); auto.
   - (* fflush(name) *)
     destruct (alookup n (st_outs s)) as [os|] eqn:El; intros H; injection H as <- <-; apply finv_add_obs.
